@@ -849,7 +849,12 @@ func (m *Machine) Explore(entry *ssa.Function, opts ExploreOpts) {
 		end := m.runPath(entry, p)
 		m.paths++
 		if m.trace {
-			fmt.Fprintf(os.Stderr, "[path %d] %s %s decisions=%d steps=%d pending=%d\n", m.paths, end.status, end.msg, len(m.decisions), m.steps, len(m.work))
+			var rl []string
+			for k := range m.reached {
+				rl = append(rl, k)
+			}
+			sort.Strings(rl)
+			fmt.Fprintf(os.Stderr, "[path %d] %s %s decisions=%d steps=%d pending=%d reach=%v\n", m.paths, end.status, end.msg, len(m.decisions), m.steps, len(m.work), rl)
 		}
 		switch end.status {
 		case "ok", "stopped", "exit":
